@@ -178,15 +178,17 @@ def _valform(lo, hi, ae, exp):
     return z3.Implies(z3.And(*strs.pow10_axioms(lo, hi)), ae == exp) if lo != hi else (ae == exp)
 
 
-def concretize(m, sstr):
-    """the row text for a model (cells without a value keep a default)."""
+def concretize(m, sstr, printed=None):
+    """the row text for a model (cells the model does not constrain keep the printed character)."""
     out = []
-    for x in (sstr.cells if isinstance(sstr, SStr) else list(sstr)):
+    for i, x in enumerate(sstr.cells if isinstance(sstr, SStr) else list(sstr)):
         if isinstance(x, str): out.append(x)
         else:
-            v = m.eval(x.code, model_completion=True) if m is not None else None
-            try: out.append(chr(v.as_long()))
-            except Exception: out.append(chr(min(x.dom)))
+            try: v = m.eval(x.code, model_completion=False).as_long()
+            except Exception: v = None
+            if v not in x.dom:
+                v = ord(printed[i]) if printed is not None and ord(printed[i]) in x.dom else min(x.dom)
+            out.append(chr(v))
     return ''.join(out)
 
 
@@ -286,12 +288,12 @@ def task_table(rel, ti, window, variant, nother):
             r = c.prove(extra_formula, stage)
             if r == 'sat':
                 m = c.failures[-1]['model']
-                if classify: stage = '%s:%s' % (stage, _trigger(concretize(m, sy[li]), toks[li], cols))
+                if classify: stage = '%s:%s' % (stage, _trigger(concretize(m, sy[li], texts[li]), toks[li], cols))
                 failures.append(dict(
                     key='%s/%s' % (base_key, stage), what='%s %s table (%s): %s' % (rel, kind, vtag, what),
                     replay=dict(file=rel, kind=kind, header=tab['header'], nkeys=nkeys, int_first=int_first,
-                                longest=concretize(m, sy[li]), longest_tokens=toks[li],
-                                rows=[dict(index=k, text=concretize(m, sy[k]), tokens=toks[k], keypos=okeypos[k])
+                                longest=concretize(m, sy[li], texts[li]), longest_tokens=toks[li],
+                                rows=[dict(index=k, text=concretize(m, sy[k], texts[k]), tokens=toks[k], keypos=okeypos[k])
                                       for k in [li] + others],
                                 allkeys=[list(x) if isinstance(x, tuple) else x for x in allkeys],
                                 stage=stage, row=row, variant=vtag)))
@@ -402,10 +404,10 @@ def task_table(rel, ti, window, variant, nother):
                 if bad[0][1] == 'sat' and fl is not None:
                     m = fl['model']
                     failures.append(dict(
-                        key='%s/%s:%s' % (base_key, lab, _trigger(concretize(m, sy[li]), toks[li], cols)), what='%s %s table (%s): row %d, %s differs from the printed number' % (rel, kind, vtag, k, lab),
+                        key='%s/%s:%s' % (base_key, lab, _trigger(concretize(m, sy[li], texts[li]), toks[li], cols)), what='%s %s table (%s): row %d, %s differs from the printed number' % (rel, kind, vtag, k, lab),
                         replay=dict(file=rel, kind=kind, header=tab['header'], nkeys=nkeys, int_first=int_first,
-                                    longest=concretize(m, sy[li]), longest_tokens=toks[li],
-                                    rows=[dict(index=kk, text=concretize(m, sy[kk]), tokens=toks[kk], keypos=okeypos[kk])
+                                    longest=concretize(m, sy[li], texts[li]), longest_tokens=toks[li],
+                                    rows=[dict(index=kk, text=concretize(m, sy[kk], texts[kk]), tokens=toks[kk], keypos=okeypos[kk])
                                           for kk in [li] + others],
                                     allkeys=[list(x) if isinstance(x, tuple) else x for x in allkeys],
                                     stage=lab, row=k, variant=vtag)))
